@@ -7,7 +7,7 @@
    (3) witnesses on the model's own creation (exec of create_save_failed): ensure_default's failed creation, the retry
        as built, the retry with the same id. *)
 From RipV Require Import Base.Prelude Model.Frames Model.Log Model.ContStore Model.C02Decide Model.SeqCreate
-  Proofs.LogProofs Proofs.C02DecideProofs.
+  Model.ContInv Proofs.LogProofs Proofs.ContStoreProofs Proofs.C02DecideProofs.
 
 (* ---------- (1) ---------- *)
 Theorem second_frame_same_number_invalid (l : log) (f f' : frame) :
@@ -102,4 +102,125 @@ Proof.
   split; [exact H3|]. split; [exact H1|]. split; [reflexivity|]. split; [exact H2|].
   split; [exact (failed_save_then_retry_same_id dstate0 w_d1 w_f H1)|].
   repeat split; vm_compute; reflexivity.
+Qed.
+
+(* ---------- (4) the micro-step program, for EVERY store: what `create_continuity` cut at the failing save leaves ---------- *)
+Lemma step0 st p m r : s_procs st 0 = Some p -> p_rem p = m :: r -> step_gen load_next st 0 = exec_m_gen load_next st 0 p m r.
+Proof. intros H1 H2. unfold step_gen. rewrite H1, H2. reflexivity. Qed.
+Lemma run_cons ld a r st : run_gen ld (a :: r) st = run_gen ld r (step_gen ld st a).
+Proof. reflexivity. Qed.
+Ltac stp := rewrite run_cons; erewrite step0; [| cbn [spawn set_proc set_store s_procs procs_of]; apply upd_same | reflexivity]; cbn [exec_m_gen].
+
+Definition created_frame (st : state) (ar : list N) : frame :=
+  {| fid := s_fresh st + 1; sid := s_fresh st; seq := 0; ety := EContinuityCreated; args := ar |}.
+
+Lemma exec_create_save_failed st ar : s_mu st = None ->
+  s_log (exec (create_save_failed ar) st) = s_log st ++ [created_frame st ar]
+  /\ s_next (exec (create_save_failed ar) st) = s_next st
+  /\ s_mu (exec (create_save_failed ar) st) = None
+  /\ s_fresh (exec (create_save_failed ar) st) = s_fresh st + 1 + 1
+  /\ s_tcnt (exec (create_save_failed ar) st) = s_tcnt st
+  /\ s_tmu (exec (create_save_failed ar) st) = s_tmu st.
+Proof.
+  intro Hmu. unfold exec, create_save_failed, run. cbn [length repeat].
+  stp. cbn [spawn s_mu]. rewrite Hmu.
+  stp. stp. cbn [pop p_child new_proc pop_same].
+  stp. cbn [pop p_last]. stp. stp. cbn [pop pop_same p_child]. stp.
+  cbn [run_gen set_proc set_store s_log s_next s_mu s_tcnt s_tmu mk_frame s_fresh spawn].
+  split; [reflexivity|]. split; [reflexivity|]. split; [unfold release; rewrite N.eqb_refl; reflexivity|].
+  repeat split; reflexivity.
+Qed.
+
+Lemma exec_lineage_save_failed st c ar : s_mu st = None ->
+  s_log (exec ([MTarget c; MRead] ++ create_save_failed ar) st) = s_log st ++ [created_frame st ar].
+Proof.
+  intro Hmu. unfold exec, create_save_failed, run. cbn [length repeat app].
+  stp. stp. cbn [pop p_cid].
+  destruct (replay_events _ c) as [res sd] eqn:Er.
+  assert (K : forall st1, s_log st1 = s_log st -> s_fresh st1 = s_fresh st -> s_mu st1 = None ->
+     forall p1, p_rem p1 = [MLock; MAlloc; MLogAppendFixed 0 EContinuityCreated ar; MSidecar; MBcast; MIndexInsert; MUnlock] ->
+     s_log (run_gen load_next [0;0;0;0;0;0;0] (set_proc st1 0 p1)) = s_log st ++ [created_frame st ar]).
+  { intros st1 Hl Hf Hm p1 Hp.
+    rewrite run_cons. erewrite step0; [| cbn [set_proc s_procs]; apply upd_same | exact Hp]. cbn [exec_m_gen set_proc s_mu]. rewrite Hm.
+    stp. stp. cbn [pop p_child pop_same].
+    stp. cbn [pop p_last]. stp. stp. cbn [pop pop_same p_child]. stp.
+    cbn [run_gen set_proc set_store s_log mk_frame s_fresh]. rewrite Hl, Hf. reflexivity. }
+  destruct res; apply K; try reflexivity; try exact Hmu.
+Qed.
+
+Lemma skipn_length_app {A} (l x : list A) : skipn (length l) (l ++ x) = x.
+Proof. induction l as [|a l IH]; [reflexivity|]. cbn [length app skipn]. exact IH. Qed.
+
+Lemma nlen_zero_nil {A} (l : list A) : nlen l = 0 -> l = [].
+Proof. unfold nlen. destruct l; [reflexivity|]. cbn [length]. lia. Qed.
+
+Lemma created_frame_props st ws : created_in ws (created_frame st [ws]) = true /\ fkind (created_frame st [ws]) = KContinuity.
+Proof. unfold created_in, is_etype, created_frame. cbn. rewrite N.eqb_refl. split; reflexivity. Qed.
+
+(* the store invariant holds again after the failed call: every theorem about what runs afterwards (c01_valid_all_schedules,
+   c01_restart, ..) applies to the store a failed index save leaves *)
+Theorem sinv_after_create_save_failed st ar :
+  SInv st -> s_mu st = None -> SInv (exec (create_save_failed ar) st).
+Proof.
+  intros [Hv Hn Hf Ht] Hmu. destruct (exec_create_save_failed st ar Hmu) as (El & En & _ & Ef & Etc & Etm).
+  assert (Hk : fkind (created_frame st ar) = KContinuity) by reflexivity.
+  destruct (Hf (s_fresh st) ltac:(lia)) as [Hc0 Hn0].
+  assert (Hother : forall k s, (k, s) <> (KContinuity, s_fresh st) -> next_of k s (s_log st ++ [created_frame st ar]) = next_of k s (s_log st)).
+  { intros k s Hne. unfold next_of. rewrite stream_snoc_other; [reflexivity|]. rewrite Hk. cbn [sid created_frame]. congruence. }
+  constructor.
+  - rewrite El. apply Valid_snoc. split; [exact Hv|]. rewrite Hk. cbn [seq sid created_frame]. unfold cnext in Hc0. rewrite Hc0. reflexivity.
+  - intros c n Hs. rewrite En in Hs. unfold cnext. rewrite El.
+    destruct (N.eq_dec c (s_fresh st)) as [->|Hne]; [congruence|].
+    rewrite Hother by congruence. apply Hn. exact Hs.
+  - intros c Hc. rewrite Ef in Hc. unfold cnext. rewrite El, En. rewrite Hother by (intro E; inversion E; lia).
+    apply Hf. lia.
+  - intros t Htm. rewrite Etm in Htm. rewrite Etc. unfold tnext. rewrite El, Hother by discriminate. apply Ht. exact Htm.
+Qed.
+
+(* ensure_default on a store that knows no thread of its workspace (not in memory, not in the log), index.json unwritable:
+   Err is answered and the state is a FailedSaveCreation *)
+Theorem ensure_sf_creates d :
+  SInv (d_st d) -> s_mu (d_st d) = None ->
+  ws_lookup (ix_ws (d_mem d)) (d_ws d) = None -> find_default (d_ws d) (s_log (d_st d)) = None ->
+  snd (ensure_sf d) = None
+  /\ FailedSaveCreation d (fst (ensure_sf d)) (created_frame (d_st d) [d_ws d])
+  /\ SInv (d_st (fst (ensure_sf d))).
+Proof.
+  intros HS Hmu Hl Hfd. pose proof (sinv_after_create_save_failed (d_st d) [d_ws d] HS Hmu) as HS'.
+  destruct (exec_create_save_failed (d_st d) [d_ws d] Hmu) as (El & _).
+  assert (Hv : validate (s_log (d_st d)) = true) by (apply validate_spec; apply (si_valid _ HS)).
+  unfold ensure_sf. rewrite Hl, Hv, Hfd. unfold new_frames. rewrite El, skipn_length_app. cbn [fst snd mem_only d_st d_ws].
+  split; [reflexivity|]. split; [|exact HS'].
+  destruct (created_frame_props (d_st d) (d_ws d)) as [Hc _].
+  repeat split; try assumption; try reflexivity.
+  apply nlen_zero_nil. destruct (si_fresh _ HS (s_fresh (d_st d)) ltac:(lia)) as [H0 _]. exact H0.
+Qed.
+
+(* .. hence, for EVERY such store: the failed call, then the retry as built (same process / after a restart with any
+   index file) appends nothing and the log stays valid; a same-id retry makes it invalid *)
+Theorem ensure_default_failed_index_save d :
+  SInv (d_st d) -> s_mu (d_st d) = None ->
+  ws_lookup (ix_ws (d_mem d)) (d_ws d) = None -> find_default (d_ws d) (s_log (d_st d)) = None ->
+  snd (ensure_sf d) = None
+  /\ s_log (d_st (fst (ensure_sf d))) = s_log (d_st d) ++ [created_frame (d_st d) [d_ws d]]
+  /\ Valid (s_log (d_st (fst (ensure_sf d))))
+  /\ SInv (d_st (fst (ensure_sf d)))
+  /\ s_log (d_st (fst (ensure false (fst (ensure_sf d))))) = s_log (d_st (fst (ensure_sf d)))
+  /\ snd (ensure false (fst (ensure_sf d))) = Some (s_fresh (d_st d))
+  /\ (forall file mem, s_log (d_st (fst (ensure false (reopen {| d_st := d_st (fst (ensure_sf d)); d_ws := d_ws d; d_file := file; d_mem := mem |} (d_ws d))))) = s_log (d_st (fst (ensure_sf d))))
+  /\ validate (s_log (retry_same_id (d_st (fst (ensure_sf d))) (s_fresh (d_st d)) (d_ws d))) = false.
+Proof.
+  intros HS Hmu Hl Hfd. destruct (ensure_sf_creates d HS Hmu Hl Hfd) as (Ha & HF & HS').
+  pose proof (failed_save_then_retry_as_built d _ _ (si_valid _ HS) HF) as (V1 & R1 & R2 & _).
+  pose proof (failed_save_then_retry_same_id d _ _ HF) as X.
+  destruct HF as (Hws & Hlog & _).
+  split; [exact Ha|]. split; [exact Hlog|]. split; [exact V1|]. split; [exact HS'|]. split; [exact R1|].
+  split.
+  - (* the in-memory index answers *)
+    assert (Hv : validate (s_log (d_st d)) = true) by (apply validate_spec; apply (si_valid _ HS)).
+    destruct (exec_create_save_failed (d_st d) [d_ws d] Hmu) as (El & _).
+    unfold ensure_sf. rewrite Hl, Hv, Hfd. unfold new_frames. rewrite El, skipn_length_app. cbn [fst].
+    unfold ensure, ws_lookup. cbn [mem_only d_mem d_ws ix_ws find fst snd created_frame sid option_map].
+    rewrite (N.eqb_refl (d_ws d)). reflexivity.
+  - split; [|exact X]. intros file mem. rewrite Hws in R2. apply R2.
 Qed.
